@@ -23,6 +23,10 @@ PARTIAL = ["frame condition (check does not modify the transaction): the Gallina
 TRUSTED = ["object identity of the TxIn objects in txs_in is passed to the model as a list of tags (first index of the same object)"]
 
 COINS = {"BTC": Tx, "BCH": BchTx, "BTG": BtgTx, "LTC": LTCTx, "GRS": GrsTx}
+# the property's own constants (NOT read from /repo): 21,000,000 coins, Groestlcoin 105,000,000; 1,000,000 bytes
+EXPECTED_MAX_MONEY = {"BTC": 21000000 * 10**8, "BCH": 21000000 * 10**8, "BTG": 21000000 * 10**8, "LTC": 21000000 * 10**8,
+                      "GRS": 105000000 * 10**8}
+EXPECTED_MAX_TX_SIZE = 1000000
 ZERO = bytes(32)
 _limit_classes = {}
 
@@ -116,7 +120,9 @@ def chk_check(d, same, coin, mm=None, ms=None):
     if snapshot(t) != before:
         return {"kind": "check-modified-transaction"}
     de = eff(d, same)
-    dfs = defects(de, cls.MAX_MONEY)
+    max_money = EXPECTED_MAX_MONEY[coin] if mm is None else mm
+    max_size = EXPECTED_MAX_TX_SIZE if ms is None else ms
+    dfs = defects(de, max_money)
     if dfs:
         if res != "validation":
             return {"kind": "defect-not-rejected", "defects": dfs, "result": res}
@@ -127,9 +133,9 @@ def chk_check(d, same, coin, mm=None, ms=None):
         return None      # a hash of the wrong length is outside the property's domain (it is truncated or short on the wire)
     total = len(spec_ser(de))
     stripped = len(spec_ser(de, False))
-    if total <= cls.MAX_TX_SIZE and res != "returns":
+    if total <= max_size and res != "returns":
         return {"kind": "well-formed-rejected", "result": res, "total_size": total}
-    if stripped > cls.MAX_TX_SIZE and res != "validation":
+    if stripped > max_size and res != "validation":
         return {"kind": "oversize-accepted", "stripped_size": stripped}
     return None
 
